@@ -108,7 +108,7 @@ class C08(Check):
     reference_models = ["ref/refext4.py tree_digest() and check()", "byte images of the device before and after the run (crash-state oracle)"]
 
     def budget(self, tier):
-        return {"runs": 1500, "wall_s": 80} if tier == "quick" else {"runs": 40000, "wall_s": 1500}
+        return {"runs": 1500, "wall_s": 80} if tier == "quick" else {"runs": 12000, "wall_s": 1500}
 
     def generate(self, rng, tier):
         cfg = gen_config(rng, avoid=("mmp",))
